@@ -91,8 +91,14 @@ fn gen_c15(o: &mut Out, tier: &str, seed: u64) {
         o.op("type", &format!("ix type {}", hex(&d)));
     }
     o.op("type", "ix type -");
+    ix_data_lengths(o, &mut r);
+}
+
+/// the raw-byte decoder of every proof-data struct (`ProofInstruction::proof_data`) on inputs of the nominal length
+/// (discriminator byte + payload) and around it, also whole multiples of the payload size: only the exact length decodes
+/// (shared by C15, C12 and C07: an accepted instruction followed by more bytes is another instruction)
+pub fn ix_data_lengths(o: &mut Out, r: &mut Rng) {
     for (pti, dsz, _) in PT_SIZES {
-        // input = discriminator byte + payload: nominal is 1 + dsz; also whole multiples of the payload size
         for len in [0usize, 1, 2, dsz - 1, dsz, dsz + 1, dsz + 2, 2 * dsz, 2 * dsz + 1, 2 * dsz + 2, 3 * dsz + 1, dsz + 33] {
             let d = r.bytes(len);
             o.op("data", &format!("ix data {} {}", pti, hex(&d)));
